@@ -9,8 +9,13 @@
 package ws
 
 import (
+	"bytes"
+	"fmt"
 	"io"
 )
+
+var _ = bytes.Equal
+var _ = fmt.Errorf
 
 // ---------------------------------------------------------------------------
 // Ghost vocabulary (interpreted by the VC generator; the Go bodies are only
@@ -487,3 +492,57 @@ func VSpecHeaderOK(h Header, s State) bool { return specHeaderOK(h, s) }
 //@   ensures  [cut]    inEnd(r)-old(inPos(r)) < 2 ==> err != nil
 //@   ensures  [fresh]  err == nil && len(f.Payload) > 0 ==> fresh(f.Payload)
 //@   assigns stream(r)
+
+// ---------------------------------------------------------------------------
+// Handshake text helpers (C09, C10, C15): pure parsing functions of http.go / util.go.
+
+func isDigit(c byte) bool { return '0' <= c && c <= '9' }
+
+func allDigits(b []byte) bool {
+	return forall(0, len(b), func(k int) bool { return isDigit(b[k]) })
+}
+
+func dig(c byte) int { return int(c - '0') }
+
+//@ func bytes.IndexByte
+//@   ensures [none]  result == -1 ==> forall(0, len(b), func(k int) bool { return b[k] != c })
+//@   ensures [found] result != -1 ==> 0 <= result && result < len(b) && b[result] == c && forall(0, result, func(k int) bool { return b[k] != c })
+//@   assigns nothing
+
+//@ func bytes.Equal
+//@   ensures [eq] result == (len(a) == len(b) && forall(0, len(a), func(k int) bool { return a[k] == b[k] }))
+//@   assigns nothing
+
+//@ func fmt.Errorf
+//@   ensures [err] result != nil
+//@   assigns nothing
+
+//@ func pow
+//@   props C10 C15
+//@   requires [b] 0 <= b
+//@   ensures [p0] a == 10 && b == 0 ==> result == 1
+//@   ensures [p1] a == 10 && b == 1 ==> result == 10
+//@   ensures [p2] a == 10 && b == 2 ==> result == 100
+//@   assigns nothing
+//@   loop 1 invariant [b]  0 <= b && b <= old(b)
+//@   loop 1 invariant [s0] old(a) == 10 && old(b) == 0 ==> b == 0 && p == 1
+//@   loop 1 invariant [s1] old(a) == 10 && old(b) == 1 ==> (b == 1 && p == 1 && a == 10) || (b == 0 && p == 10)
+//@   loop 1 invariant [s2] old(a) == 10 && old(b) == 2 ==> (b == 2 && p == 1 && a == 10) || (b == 1 && p == 1 && a == 100) || (b == 0 && p == 100)
+//@   loop 1 decreases b
+
+// asciiToInt: accepts exactly the non-empty strings of decimal digits; the value is specified
+// for tokens of up to three digits (status codes, version numbers), longer ones may wrap.
+//@ func asciiToInt
+//@   props C10 C09 C15
+//@   ensures [err]  (err == nil) == (len(bts) >= 1 && allDigits(bts))
+//@   ensures [zero] err != nil ==> ret == 0
+//@   ensures [v1]   err == nil && len(bts) == 1 ==> ret == dig(bts[0])
+//@   ensures [v2]   err == nil && len(bts) == 2 ==> ret == dig(bts[0])*10+dig(bts[1])
+//@   ensures [v3]   err == nil && len(bts) == 3 ==> ret == dig(bts[0])*100+dig(bts[1])*10+dig(bts[2])
+//@   assigns nothing
+//@   loop 1 invariant [i]  0 <= i && i <= n && n == len(bts) && n >= 1
+//@   loop 1 invariant [dg] forall(0, i, func(k int) bool { return isDigit(bts[k]) })
+//@   loop 1 invariant [a1] n == 1 ==> ret == iteInt(i >= 1, dig(bts[0]), 0)
+//@   loop 1 invariant [a2] n == 2 ==> ret == iteInt(i >= 1, dig(bts[0])*10, 0)+iteInt(i >= 2, dig(bts[1]), 0)
+//@   loop 1 invariant [a3] n == 3 ==> ret == iteInt(i >= 1, dig(bts[0])*100, 0)+iteInt(i >= 2, dig(bts[1])*10, 0)+iteInt(i >= 3, dig(bts[2]), 0)
+//@   loop 1 decreases n - i
